@@ -403,8 +403,9 @@ impl Property for C03 {
     fn cases(&self, tier: Tier) -> u64 {
         self.space(tier).control_part().1
     }
-    fn chunk(&self, _tier: Tier) -> u64 {
-        1500
+    fn chunk(&self, tier: Tier) -> u64 {
+        // many schedules per program: keep worker lifetimes (and leaked graphs) short
+        tier.pick(1500, 400)
     }
     fn run_case(&self, tier: Tier, case: u64, acc: &mut Acc) {
         acc.count("cases", 1);
